@@ -464,3 +464,21 @@ C(f"{F}:Parser.handle_fstring", params={"self": "obj:Parser#strings", "a": "Tok"
            "and self._path_token.end == a.end and self._path_owner is result)",
            "implies(not has_p_prefix(a.string), self._path_token == old(self._path_token) and self._path_owner is old(self._path_owner))"],
   raises=["SyntaxError"], raises_ensures=[WF], modifies=ERRMOD + ["self._path_token", "self._path_owner"], properties=["C10", "C14", "C05"])
+
+# ---------------------------------------------------------------------------------------------- parameter lists (C04): what compile() checks of ast.arguments
+PD = "objseq[(obj:ast.arg, opt[obj:AnyNode])]"
+C(f"{F}:Parser.make_arguments", params={"self": "obj:Parser", "pos_only": "opt[objseq[(obj:ast.arg, none)]]", "pos_only_with_default": PD,
+                                         "param_no_default": "opt[objseq[obj:ast.arg]]", "param_default": f"opt[{PD}]",
+                                         "after_star": f"opt[(opt[obj:ast.arg], {PD}, opt[obj:ast.arg])]"},
+  # every call site passes either no `/`-parameters without default or no `/`-parameters with default (obligation C04.callsite.make_arguments)
+  requires=["is_none(pos_only) or len(pos_only_with_default) == 0"],
+  ensures=["isinstance(result, ast.arguments)",
+           # one default slot per keyword-only parameter (None where it has none) ...
+           "len(result.kw_defaults) == len(result.kwonlyargs)",
+           # ... and never more positional defaults than positional parameters
+           "len(result.defaults) <= len(result.posonlyargs) + len(result.args)",
+           "implies(not is_none(pos_only) and len(pos_only) > 0, len(result.posonlyargs) == len(pos_only))",
+           "implies(is_none(pos_only) or len(pos_only) == 0, len(result.posonlyargs) == len(pos_only_with_default))",
+           "implies(not is_none(after_star), result.vararg is after_star[0] and result.kwarg is after_star[2] and len(result.kwonlyargs) == len(after_star[1]))",
+           "implies(is_none(after_star), is_none(result.vararg) and is_none(result.kwarg) and len(result.kwonlyargs) == 0)"],
+  raises=[], pure=True, properties=["C04", "C01"])
